@@ -2,4 +2,4 @@
 # run every quick check on /repo, 6 at a time; prints one line per check and fails if any exits non-zero
 cd "$(dirname "$0")/.." || exit 2
 ./check C01 --tier quick > /tmp/q_C01.log 2>&1; echo "C01 exit=$?"   # fills the fact cache
-printf '%s\n' C02 C04 C05 C06 C07 C08 C11 C12 C13 C14 C15 C16 C17 C18 C19 C20 | xargs -P 6 -I{} sh -c './check {} --tier quick > /tmp/q_{}.log 2>&1; echo "{} exit=$? viol=$(grep -c "^VIOLATION" /tmp/q_{}.log)"'
+printf '%s\n' C02 C03 C04 C05 C06 C07 C08 C09 C10 C11 C12 C13 C14 C15 C16 C17 C18 C19 C20 | xargs -P 6 -I{} sh -c './check {} --tier quick > /tmp/q_{}.log 2>&1; echo "{} exit=$? viol=$(grep -c "^VIOLATION" /tmp/q_{}.log)"'
